@@ -222,7 +222,13 @@ POINTER_KINDS = ['fid-icb-lbn', 'fid-icb-lbn', 'fid-icb-lbn', 'current_lba', 'ba
                  'pt-extent', 'pt-parent', 'eltorito-load-rba', 'eltorito-catalog-pointer', 'anchor-main-location', 'lvd-integrity-location']
 POINTER = st.builds(lambda k, i, r, rnd: [('nfield', k, i, r, rnd), ('reseal',)], st.sampled_from(POINTER_KINDS), st.integers(0, 99999),
                     st.sampled_from(['other', 'other', 'other', 'minus1', 'plus1', 'zero']), st.integers(0, 0xffffffff))
+# sizes, counts and locations that are *smaller* than anything derived from them expects (value - 256, value - 1, value // n ...)
+SIZE_KINDS = ['volume-space-size', 'volume-space-size', 'volume-space-size', 'path-table-size', 'data-length', 'pd-length', 'pd-start', 'anchor-main-length', 'lvd-integrity-length',
+              'lvid-size-table', 'last_usable', 'first_usable', 'block_count', 'fe-info-length', 'ad-length', 'ce-length', 'logical-block-size', 'pt-l-location', 'anchor-main-location']
+SMALLER = st.builds(lambda k, i, r, rnd, seal: [('nfield', k, i, r, rnd)] + ([('reseal',)] if seal else []), st.sampled_from(SIZE_KINDS), st.integers(0, 99999),
+                    st.sampled_from(['small', 'small', 'nearv']), st.integers(0, 0xffffffff), st.booleans())
 CASE = st.one_of(
+    st.tuples(st.integers(0, 9999), SMALLER),
     st.tuples(st.integers(0, NBASES + NEXTRA - 1), st.lists(PATCH, min_size=1, max_size=3)),
     st.tuples(st.integers(0, NBASES + NEXTRA - 1), st.lists(PATCH, min_size=1, max_size=3)),
     st.tuples(st.integers(0, NBASES + NEXTRA - 1), RESEALED),
@@ -413,6 +419,10 @@ def newval(v, rk, rnd, n, fields, fk, img, width):
         return v * 2
     if rk == 'beyond':
         return n // 2048 + 1 + rnd % 1000
+    if rk == 'small':
+        return rnd % 300          # a size / count / location that is too small rather than too large (anything derived as "value - constant" goes negative)
+    if rk == 'nearv':
+        return v - 1 - rnd % 300
     if rk == 'other':
         same = [f for f in fields if f[2] == fk and f[1] == (8 if width == 8 else width)]
         if same:
